@@ -79,6 +79,30 @@ func (in *Interp) eval(e ast.Expr, st *State) []ev {
 					return one(st, v)
 				}
 			}
+			// a captured struct defined once by a literal: an object with the literal's never-written fields
+			if in.Hooks.FreeStruct != nil && !in.resolvingFree[ob] {
+				if lit, stable := in.Hooks.FreeStruct(ob); lit != nil {
+					if in.resolvingFree == nil {
+						in.resolvingFree = map[*types.Var]bool{}
+					}
+					in.resolvingFree[ob] = true
+					res := in.composite(lit, st)
+					delete(in.resolvingFree, ob)
+					if len(res) == 1 {
+						if r, ok := res[0].v.(Ref); ok {
+							if o := res[0].st.heap[r.ID]; o != nil {
+								for f := range o.Fields {
+									if !stable[f] {
+										o.Fields[f] = Sym{Name: ob.Name() + "." + f}
+									}
+								}
+							}
+							res[0].st.env[ob] = r
+							return res
+						}
+					}
+				}
+			}
 			// a captured variable that is a name for a pure expression of the enclosing function (defined once,
 			// from operands that are themselves never reassigned): its definition is evaluated in its place
 			if in.Hooks.FreeVar != nil && !in.resolvingFree[ob] {
@@ -920,6 +944,40 @@ func (in *Interp) apply(x *ast.CallExpr, callee string, obj types.Object, recv V
 	// abstract iteration; the callback runs once, in this state, and what it returned is recorded as an event
 	if in.Hooks.Visit != nil {
 		if idx, items, ok := in.Hooks.Visit(st, callee, recv, args); ok && idx >= 0 && idx < len(args) {
+			// a method value or a named function as the callback: its declaration is run
+			if _, isClosure := args[idx].(Closure); !isClosure && in.Hooks.Inline != nil && idx < len(x.Args) {
+				var fobj *types.Func
+				var recvExpr ast.Expr
+				switch a := core.Unparen(x.Args[idx]).(type) {
+				case *ast.SelectorExpr:
+					fobj, _ = info.Uses[a.Sel].(*types.Func)
+					if sel := info.Selections[a]; sel != nil && sel.Kind() == types.MethodVal {
+						recvExpr = a.X
+					}
+				case *ast.Ident:
+					fobj, _ = info.Uses[a].(*types.Func)
+				}
+				if fobj != nil {
+					if decl, dinfo := in.Hooks.Inline(fobj); decl != nil {
+						var recvVal Val
+						if recvExpr != nil {
+							if rv := in.eval(recvExpr, st); len(rv) == 1 {
+								recvVal = rv[0].v
+							}
+						}
+						var out []ev
+						for _, e := range in.inline(decl.Type, decl.Recv, decl.Body, recvVal, items, st, x, dinfo) {
+							if pv, isPanic := e.v.(panicVal); isPanic {
+								out = append(out, ev{e.st, pv})
+								continue
+							}
+							e.st.Emit("visited "+callee, x.Pos(), e.v)
+							out = append(out, ev{e.st, Sym{Name: "void"}})
+						}
+						return out
+					}
+				}
+			}
 			if cl, ok := args[idx].(Closure); ok {
 				if lit, ok := cl.Lit.(*ast.FuncLit); ok {
 					var out []ev
